@@ -21,7 +21,8 @@ from prompt_toolkit.output.vt100 import (
     _EscapeCodeCache,
     _get_closest_ansi_color,
 )
-from prompt_toolkit.styles import ANSI_COLOR_NAMES, DEFAULT_ATTRS, Attrs, Style, merge_styles
+from prompt_toolkit.styles import (ANSI_COLOR_NAMES, DEFAULT_ATTRS, Attrs, DummyStyle, DynamicStyle, Style,
+                                   merge_styles)
 from prompt_toolkit.styles import style as style_mod
 from prompt_toolkit.styles.style import _expand_classname, _parse_style_str, parse_color
 
@@ -139,19 +140,27 @@ def model_lines(case):
 
 
 # ------------------------------------------------------------------ real code
-def build_sheets(sheets):
-    """Style(...) for every sheet; the first constructor error wins (as an 'err:...' string)."""
+def build_sheets(sheets, wrap=None):
+    """Style(...) for every sheet; the first constructor error wins (as an 'err:...' string).
+    `wrap[i]` (optional): 'dyn' = hand the sheet over through a DynamicStyle, 'dummy' = an empty sheet
+    is represented by DummyStyle(), 'dynnone' = a None entry is a DynamicStyle returning None."""
     out = []
-    for s in sheets:
+    for i, s in enumerate(sheets):
+        w = wrap[i] if wrap and i < len(wrap) else ""
         if s is None:
-            out.append(None)
+            out.append(DynamicStyle(lambda: None) if w == "dynnone" else None)
             continue
         try:
-            out.append(Style([tuple(r) for r in s]))
+            st = Style([tuple(r) for r in s])
         except AssertionError:
             return None, "err:AssertionError"
         except ValueError:
             return None, "err:ValueError"
+        if w == "dummy" and not s:
+            st = DummyStyle()
+        elif w == "dyn":
+            st = DynamicStyle(lambda st=st: st)
+        out.append(st)
     return out, None
 
 
@@ -160,18 +169,20 @@ def mk_default(case):
     return Attrs(*d) if d else DEFAULT_ATTRS
 
 
-def the_style(styles):
+def the_style(styles, wrapped=False):
     live = [s for s in styles if s is not None]
-    if len(styles) == 1 and len(live) == 1:
+    if len(styles) == 1 and len(live) == 1 and not wrapped:
         return live[0]
+    # (a DummyStyle queried directly ignores the style string altogether; inside merge_styles it is
+    # just an empty rule list, which is what the model represents)
     return merge_styles(styles)
 
 
 def q_results(case):
-    styles, err = build_sheets(case["sheets"])
+    styles, err = build_sheets(case["sheets"], case.get("wrap"))
     if err:
         return [err] * len(case["strs"]), None
-    st = the_style(styles)
+    st = the_style(styles, bool(case.get("wrap")))
     dflt = mk_default(case)
     out = []
     for s in case["strs"]:
@@ -775,6 +786,26 @@ _CALLS = 0
 
 
 def cases(tier, rng):
+    """all cases of the tier; the expensive full-sweep rows are spread evenly over the list so that the
+    worker chunks of core.parallel_eval are balanced"""
+    cs = list(_cases(tier, rng))
+    heavy = [c for c in cs if c["k"] == "c256row"]
+    light = [c for c in cs if c["k"] != "c256row"]
+    if not heavy:
+        return light
+    out = []
+    step = max(1, len(light) // len(heavy))
+    hi = 0
+    for i, c in enumerate(light):
+        out.append(c)
+        if i % step == step - 1 and hi < len(heavy):
+            out.append(heavy[hi])
+            hi += 1
+    out += heavy[hi:]
+    return out
+
+
+def _cases(tier, rng):
     global _CALLS
     _CALLS += 1
     # the second call in one process is core's "search harder" pass after a broken obligation:
@@ -874,6 +905,9 @@ def cases(tier, rng):
         strs = [rand_style(rng, R_PARTS if wild else R_PARTS[:15] + R_STYLES[:32], 7) for _ in range(4)]
         strs.append(strs[0])
         c = {"k": "q", "sheets": sheets, "strs": strs}
+        if rng.random() < 0.25:
+            c["wrap"] = [rng.choice(["", "dyn", "dummy"]) if sh is not None else rng.choice(["", "dynnone"])
+                         for sh in sheets]
         if rng.random() < 0.2:
             d = rand_attrs(rng, True)
             c["default"] = d
